@@ -9,8 +9,17 @@ c_vs_py       _run_c == _run_py at concrete q for all force constants (LRA).
 wang_c_vs_py  Wang NAC: _run_c == _run_py at concrete q for all Born tensors (not assumed symmetric) - polynomial identity.
 wang_ddm      Wang NAC with concrete (non-symmetric) Born charges and symbolic q: kernel derivative == tree derivative of
               the Wang dynamical-matrix kernel (thorough tier; NRA, may be inconclusive).
-gruneisen     GruneisenBase._set_gruneisen executed in E2 with the eigensolver replaced by a contract stub: the value is
-              -(V/2 lambda) e^dagger (D+ - D-) e / (V+ - V-)-type finite difference of symbolic matrices as documented.
+gv            GroupVelocity.run/_calculate_group_velocity_at_q/_get_dD_analytical/_perturb_D/_symmetrize_group_velocity executed in
+              E2 with the derivative matrices dD/dq_a *symbolic Hermitian matrices* (injected in place of the ddm object; that
+              they are the true derivative is ddm_vs_dD's job), D(q) and its LAPACK eigenvectors concrete at a q without
+              degeneracies: reported velocity == factor^2/(2 f) Re<e|dD/dq_a|e> (Hellmann-Feynman gradient of the frequency),
+              exactly 0 for bands at or below the cutoff, and - with symmetry - the average over the Cartesian images under the
+              operations that leave q invariant (oracle rotations B r B^-1 checked orthogonal), for all dD.  LRA.
+gruneisen     GruneisenBase.__init__/_set_gruneisen/_get_dD and rotate_eigenvectors executed in E2 with *symbolic Hermitian* D+(q),
+              D-(q) (stand-in dynamical-matrix objects carrying the volumes), central D(q) real: gamma ==
+              -(V0 / 2 lambda) <e|D+ - D-|e> / (V+ - V-) for all D+, D-; uniform scaling D+- = s+- D gives the same closed-form
+              value -V0 (s+ - s-)/(2 (V+ - V-)) for every mode, for all s+-; band connection only re-orders per q.  LRA.
+              eigh of a symbolic 1x1 block is exact; q-points with degenerate bands are excluded (harness error if hit).
 """
 import numpy as np
 import z3
@@ -27,9 +36,12 @@ PID = "C12"
 
 def units(tier):
     u = [("ddm_vs_dD", "tric2", "211"), ("ddm_vs_dD", "bccI", "111"), ("c_vs_py", "tric2", "211"), ("c_vs_py", "hex2", "111"), ("c_vs_py", "bccI", "111"),
-         ("wang_c_vs_py", "tric2", "211")]
+         ("wang_c_vs_py", "tric2", "211"),
+         ("gv", "tric2", "211", False), ("gv", "tric2", "211", True), ("gv", "hex2", "211", True), ("gv", "mono2", "211", True), ("gv", "tet2", "211", True),
+         ("gruneisen", "tric2", "211", "general"), ("gruneisen", "tric2", "211", "scaling"), ("gruneisen", "hex2", "211", "general"), ("gruneisen", "tric2", "211", "band")]
     if tier == "thorough":
-        u += [("ddm_vs_dD", "hex2", "211"), ("ddm_vs_dD", "tric2", "nd4"), ("c_vs_py", "mono2", "nd1"), ("wang_c_vs_py", "hex2", "211"), ("wang_ddm", "tric2", "211")]
+        u += [("ddm_vs_dD", "hex2", "211"), ("ddm_vs_dD", "tric2", "nd4"), ("c_vs_py", "mono2", "nd1"), ("wang_c_vs_py", "hex2", "211"), ("wang_ddm", "tric2", "211"),
+              ("gv", "ortho2x", "211", True), ("gv", "hex2", "211", False), ("gruneisen", "mono2", "211", "general"), ("gruneisen", "hex2", "211", "scaling"), ("gruneisen", "hex2", "211", "band")]
     return u
 
 
@@ -109,9 +121,307 @@ def _ddm(case, br, fc, q, dm=None, q_direction=None, lang="C"):
         return d.d_dynamical_matrix
 
 
+# ---------------------------------------------------------------------------------------------- group velocity / Grueneisen
+GV_Q = {"tric2": [0.13, 0.21, 0.34], "hex2": [0.15, 0.0, 0.0], "mono2": [0.0, 0.2, 0.0], "tet2": [0.15, 0.15, 0.0], "ortho2x": [0.0, 0.2, 0.0]}
+
+
+class Eig1(symnp.LinalgProxy):
+    """eigh of a symbolic 1x1 Hermitian matrix is exact: (Re a00, [[1]]); concrete matrices go to LAPACK."""
+    def eigh(s, a, *k, **kw):
+        a = np.asarray(a)
+        if symnp.has_sym(a):
+            if a.shape != (1, 1):
+                raise HarnessError("symbolic eigh beyond 1x1 (degenerate bands at the chosen q)")
+            re, _ = symnp._re_im(a[0, 0])
+            vec = symnp._zeros((1, 1), 'c'); vec[0, 0] = 1.0
+            return symnp.symarray([re]), vec
+        return symnp.LinalgProxy.__getattr__(s, "eigh")(a, *k, **kw)
+
+
+def hermitian_symbols(prefix, n):
+    """n x n Hermitian matrix of fresh symbols: (flat symbol list, object array of SC)"""
+    syms = []; M = symnp._zeros((n, n), 'c')
+    for a in range(n):
+        for b in range(a, n):
+            re = z3.Real("%s_re_%d_%d" % (prefix, a, b)); syms.append(re)
+            if a == b:
+                M[a, a] = symnp.SC(symnp.SR(re), 0.0)
+            else:
+                im = z3.Real("%s_im_%d_%d" % (prefix, a, b)); syms.append(im)
+                M[a, b] = symnp.SC(symnp.SR(re), symnp.SR(im)); M[b, a] = symnp.SC(symnp.SR(re), -symnp.SR(im))
+    return syms, M
+
+
+def concrete_hermitian(M, model):
+    n = M.shape[0]; out = np.zeros((n, n), dtype=complex)
+    for a in range(n):
+        for b in range(n):
+            re, im = symnp._re_im(M[a, b])
+            out[a, b] = complex(model_value(model, harness.to_term(re)) if not isinstance(re, float) else re, model_value(model, harness.to_term(im)) if not isinstance(im, (float, int)) else im)
+    return out
+
+
+def prepared(gid, sid):
+    from checks.c19 import spring_fc
+    ph = geometries.phonopy_obj(gid, sid)
+    ph.force_constants = spring_fc(ph, seed=5)
+    return ph
+
+
+def mode_data(ph, q):
+    dm = ph.dynamical_matrix
+    dm.run(np.array(q, dtype=float))
+    D0 = np.array(dm.dynamical_matrix)
+    lam, E = np.linalg.eigh(D0)
+    f = np.sqrt(np.abs(lam)) * np.sign(lam) * ph.unit_conversion_factor
+    if np.min(np.diff(f)) < 1e-2 or np.min(np.diff(lam)) < 1e-3:
+        raise HarnessError("near-degenerate bands at the chosen q-point: pick another one")
+    return D0, lam, E, f
+
+
+class FakeDDM:
+    def __init__(s, mats):
+        s.d_dynamical_matrix = mats
+
+    def run(s, q, lang="C"):
+        pass
+
+    def get_derivative_of_dynamical_matrix(s):
+        return s.d_dynamical_matrix
+
+
+def gv_oracle(ph, q, lam, E, f, ddm, use_sym, cutoff):
+    """factor^2/(2 f) Re <e|dD/dq_a|e> per band, averaged over the little co-group of q in Cartesian form"""
+    nb = len(f); fac = ph.unit_conversion_factor
+    sym = any(symnp.has_sym(np.asarray(ddm[a])) for a in range(3))
+    raw = symnp._zeros((nb, 3)) if sym else np.zeros((nb, 3))
+    for nu in range(nb):
+        if not f[nu] > cutoff:
+            continue
+        e = E[:, nu]
+        for a in range(3):
+            val = np.dot(e.conj().astype(object), np.dot(np.asarray(ddm[a], dtype=object), e.astype(object)))
+            re, _ = symnp._re_im(val)
+            raw[nu, a] = re * (fac ** 2 / (2 * f[nu]))
+    if not use_sym:
+        return raw
+    B = np.linalg.inv(ph.primitive.cell)           # columns: reciprocal basis vectors
+    qb = np.array(q) - np.rint(q)
+    rots = []
+    for r in ph.primitive_symmetry.reciprocal_operations:
+        if np.abs(qb - r @ qb).max() < 1e-5:
+            Rc = B @ r @ np.linalg.inv(B)
+            if np.abs(Rc @ Rc.T - np.eye(3)).max() > 1e-8:
+                raise HarnessError("oracle rotation is not orthogonal")
+            rots.append(Rc)
+    out = symnp._zeros((nb, 3)) if sym else np.zeros((nb, 3))
+    for Rc in rots:
+        for nu in range(nb):
+            out[nu] = out[nu] + np.dot(Rc.astype(object) if sym else Rc, raw[nu])
+    return out / float(len(rots)), len(rots)
+
+
+def gv_unit(u, res):
+    ctx = harness.setup()
+    _, gid, sid, use_sym = u
+    from phonopy.phonon.group_velocity import GroupVelocity
+    ph = prepared(gid, sid)
+    q = GV_Q[gid]
+    D0, lam, E, f = mode_data(ph, q)
+    n = len(f); cutoff = float(np.sort(f)[0]) + 1e-3        # lowest band below the cutoff: its velocity must be reported as 0
+    syms = []; mats = []
+    for a in range(3):
+        sy, M = hermitian_symbols("dD%d" % a, n); syms += sy; mats.append(M)
+    ddm = symnp._zeros((3, n, n), 'c')
+    for a in range(3):
+        ddm[a] = mats[a]
+    br = bridge.Bridge(ctx.shim, ctx.ir); br.install()
+    old = symnp.NPProxy.linalg
+    try:
+        with symnp.session():
+            symnp.NPProxy.linalg = Eig1()
+            gvo = GroupVelocity(ph.dynamical_matrix, symmetry=ph.primitive_symmetry if use_sym else None, frequency_factor_to_THz=ph.unit_conversion_factor, cutoff_frequency=cutoff)
+            gvo._ddm = FakeDDM(ddm)
+            gvo.run([np.array(q, dtype=float)])
+            out = np.asarray(gvo.group_velocities, dtype=object)[0]
+            want = gv_oracle(ph, q, lam, E, f, ddm, use_sym, cutoff)
+            nrot = 1
+            if use_sym:
+                want, nrot = want
+    finally:
+        symnp.NPProxy.linalg = old
+        br.uninstall()
+    res.stat("little_group_order", nrot)
+    A = box(syms)
+    name = "group velocity == factor^2/(2 f) Re<e|dD/dq|e>%s, zero at or below the cutoff, for all dD/dq [%s/%s q=%s]" % (" averaged over the %d operations leaving q invariant" % nrot if use_sym else "", gid, sid, q)
+    v, m, idx = assert_equal(res, name, symnp.unwrap(out), symnp.unwrap(want), A, tol=1e-8, chunk=6)
+    key = "%s:gv:%s/%s/%s" % (PID, gid, sid, "sym" if use_sym else "nosym")
+    if v == "sat":
+        mats_c = [concrete_hermitian(M, m) for M in mats]
+        ok, what = replay_gv(gid, sid, use_sym, mats_c)
+        (res.violations if ok else res.unconfirmed).append({"key": key, "what": what, "replay": {"unit": [str(x) for x in u], "dD": [np.stack([M.real, M.imag]).tolist() for M in mats_c]}})
+    elif v == "unknown":
+        res.notes.append("inconclusive " + key)
+    v2, _, _ = assert_equal(Result("t"), "twin", symnp.unwrap(out), [t * Fraction(3, 2) if isinstance(t, z3.ExprRef) else t for t in symnp.unwrap(want)], A, tol=1e-8, chunk=6)
+    res.twins.append({"name": "gv twin (factor 1.5) refutable", "verdict": v2})
+    res.samples.append({"unit": res.unit, "symbols": len(syms), "frequencies": f.tolist(), "cutoff": cutoff, "little_group_order": nrot})
+    return res
+
+
+def replay_gv(gid, sid, use_sym, mats_c):
+    from phonopy.phonon.group_velocity import GroupVelocity
+    ph = prepared(gid, sid)
+    q = GV_Q[gid]
+    D0, lam, E, f = mode_data(ph, q)
+    cutoff = float(np.sort(f)[0]) + 1e-3
+    gvo = GroupVelocity(ph.dynamical_matrix, symmetry=ph.primitive_symmetry if use_sym else None, frequency_factor_to_THz=ph.unit_conversion_factor, cutoff_frequency=cutoff)
+    gvo._ddm = FakeDDM(np.array(mats_c))
+    gvo.run([np.array(q, dtype=float)])
+    want = gv_oracle(ph, q, lam, E, f, np.array(mats_c), use_sym, cutoff)
+    if use_sym:
+        want = want[0]
+    d = float(np.abs(np.array(gvo.group_velocities[0]) - np.array(want, dtype=float)).max())
+    return d > 1e-8, "group velocities differ by %.3g from factor^2/(2f) <e|dD/dq|e> (symmetrised over the operations leaving q invariant: %s) on %s/%s at q=%s" % (d, use_sym, gid, sid, q)
+
+
+class _FakePrim:
+    def __init__(s, volume):
+        s.volume = volume
+
+
+class FakeDM:
+    def __init__(s, volume, mats):
+        s.primitive = _FakePrim(volume); s._mats = mats; s.dynamical_matrix = None
+
+    def run(s, q, q_direction=None):
+        s.dynamical_matrix = s._mats[tuple(np.round(np.asarray(q, dtype=float), 8))]
+
+
+GRU_QS = {"tric2": [[0.13, 0.21, 0.34], [0.17, 0.23, 0.36], [0.5, 0.1, 0.0]], "hex2": [[0.15, 0.05, 0.1], [0.3, 0.1, 0.2]], "mono2": [[0.0, 0.3, 0.25], [0.0, 0.2, 0.0]]}
+
+
+def gru_build(gid, sid, variant, symbolic=True, model=None, store=None):
+    """(ph, qs, per-q mode data, plus/minus fakes, symbols)"""
+    ph = prepared(gid, sid)
+    qs = GRU_QS[gid]
+    V0 = ph.primitive.volume; Vp, Vm = V0 * 1.02, V0 * 0.985
+    data = [mode_data(ph, q) for q in qs]
+    n = len(data[0][1])
+    syms = []; plus = {}; minus = {}
+    if variant == "scaling":
+        sp, sm = z3.Real("s_plus"), z3.Real("s_minus"); syms = [sp, sm]
+        for q, (D0, lam, E, f) in zip(qs, data):
+            k = tuple(np.round(np.asarray(q, dtype=float), 8))
+            if symbolic:
+                plus[k] = symnp.as_symarr(D0.astype(object), 'c') * symnp.SR(sp); minus[k] = symnp.as_symarr(D0.astype(object), 'c') * symnp.SR(sm)
+            else:
+                plus[k] = D0 * model[0]; minus[k] = D0 * model[1]
+    else:
+        for iq, q in enumerate(qs):
+            k = tuple(np.round(np.asarray(q, dtype=float), 8))
+            if symbolic:
+                s1, P = hermitian_symbols("Dp%d" % iq, n); s2, M = hermitian_symbols("Dm%d" % iq, n)
+                syms += s1 + s2; plus[k] = P; minus[k] = M
+            else:
+                plus[k], minus[k] = model[iq]
+    return ph, qs, data, FakeDM(Vp, plus), FakeDM(Vm, minus), syms, (V0, Vp, Vm)
+
+
+def gru_oracle(data, plus, minus, qs, vols, sym):
+    V0, Vp, Vm = vols
+    out = []
+    for q, (D0, lam, E, f) in zip(qs, data):
+        k = tuple(np.round(np.asarray(q, dtype=float), 8))
+        dD = np.asarray(plus._mats[k], dtype=object) - np.asarray(minus._mats[k], dtype=object)
+        row = []
+        for nu in range(len(lam)):
+            e = E[:, nu].astype(object)
+            val = np.dot(e.conj() if not sym else np.array([x.conjugate() for x in e], dtype=object), np.dot(dD, e))
+            re, _ = symnp._re_im(val)
+            row.append(re * (-V0 / (2 * lam[nu] * (Vp - Vm))))
+        out.append(row)
+    return out
+
+
+def gru_unit(u, res):
+    ctx = harness.setup()
+    _, gid, sid, variant = u
+    from phonopy.gruneisen.core import GruneisenBase
+    band = variant == "band"
+    ph, qs, data, plus, minus, syms, vols = gru_build(gid, sid, "general" if band else variant)
+    br = bridge.Bridge(ctx.shim, ctx.ir); br.install()
+    old = symnp.NPProxy.linalg
+    try:
+        with symnp.session():
+            symnp.NPProxy.linalg = Eig1()
+            g = GruneisenBase(ph.dynamical_matrix, plus, minus, qpoints=np.array(qs, dtype=float), is_band_connection=band)
+            out = np.asarray(g.get_gruneisen(), dtype=object)
+            evals = np.array(symnp.concretize(np.asarray(g.get_eigenvalues())), dtype=float)
+    finally:
+        symnp.NPProxy.linalg = old
+        br.uninstall()
+    want = gru_oracle(data, plus, minus, qs, vols, True)
+    A = box(syms) if variant != "scaling" else [syms[0] >= Fraction(1, 2), syms[0] <= 2, syms[1] >= Fraction(1, 2), syms[1] <= 2]
+    key = "%s:gruneisen:%s/%s/%s" % (PID, gid, sid, variant)
+    lhs = []; rhs = []
+    for iq in range(len(qs)):
+        lam = data[iq][1]
+        # reported order: ascending eigenvalues without band connection; a permutation of them with it
+        perm = [int(np.argmin(np.abs(lam - ev))) for ev in evals[iq]]
+        if sorted(perm) != list(range(len(lam))):
+            res.unconfirmed.append({"key": key + ":eigs", "what": "reported eigenvalues are not a permutation of the spectrum at q=%s" % qs[iq]})
+            continue
+        for kk, nu in enumerate(perm):
+            lhs.append(out[iq, kk]); rhs.append(want[iq][nu])
+    if variant == "scaling":
+        V0, Vp, Vm = vols
+        closed = (symnp.SR(syms[0]) - symnp.SR(syms[1])) * (-V0 / (2 * (Vp - Vm)))
+        v, m, idx = assert_equal(res, "uniform scaling D+- = s+- D: every mode has gamma = -V0 (s+ - s-)/(2 (V+ - V-))", symnp.unwrap(symnp.symarray(lhs)), symnp.unwrap(symnp.symarray([closed] * len(lhs))), A, tol=1e-8, chunk=12)
+    else:
+        v, m, idx = assert_equal(res, "gamma == -(V0/2 lambda) <e|D+ - D-|e>/(V+ - V-) for all D+, D-%s [%s/%s]" % (" (band connection only re-orders)" if band else "", gid, sid),
+                                 symnp.unwrap(symnp.symarray(lhs)), symnp.unwrap(symnp.symarray(rhs)), A, tol=1e-8, chunk=6)
+    if v == "sat":
+        ok, what = replay_gru(u, m, syms, plus, minus, qs)
+        (res.violations if ok else res.unconfirmed).append({"key": key, "what": what, "replay": {"unit": [str(x) for x in u]}})
+    elif v == "unknown":
+        res.notes.append("inconclusive " + key)
+    v2, _, _ = assert_equal(Result("t"), "twin", symnp.unwrap(symnp.symarray(lhs)), [t * Fraction(3, 2) if isinstance(t, z3.ExprRef) else t for t in symnp.unwrap(symnp.symarray(rhs))], A, tol=1e-8, chunk=12)
+    res.twins.append({"name": "gruneisen twin (factor 1.5) refutable", "verdict": v2})
+    res.samples.append({"unit": res.unit, "symbols": len(syms), "qpoints": qs, "volumes": list(vols)})
+    return res
+
+
+def replay_gru(u, m, syms, plus, minus, qs):
+    from phonopy.gruneisen.core import GruneisenBase
+    _, gid, sid, variant = u
+    band = variant == "band"
+    if variant == "scaling":
+        model = [model_value(m, syms[0]), model_value(m, syms[1])]
+    else:
+        model = []
+        for q in qs:
+            k = tuple(np.round(np.asarray(q, dtype=float), 8))
+            model.append((concrete_hermitian(plus._mats[k], m), concrete_hermitian(minus._mats[k], m)))
+    ph, qs, data, P, M, _, vols = gru_build(gid, sid, "general" if band else variant, symbolic=False, model=model)
+    g = GruneisenBase(ph.dynamical_matrix, P, M, qpoints=np.array(qs, dtype=float), is_band_connection=band)
+    out = np.array(g.get_gruneisen()); evals = np.array(g.get_eigenvalues())
+    want = gru_oracle(data, P, M, qs, vols, False)
+    worst = 0.0
+    for iq in range(len(qs)):
+        lam = data[iq][1]
+        perm = [int(np.argmin(np.abs(lam - ev))) for ev in evals[iq]]
+        for kk, nu in enumerate(perm):
+            worst = max(worst, abs(out[iq, kk] - float(want[iq][nu])))
+    return worst > 1e-8, "mode Grueneisen parameters differ by %.3g from -(V0/2 lambda) <e|D+ - D-|e>/(V+ - V-) (%s/%s, %s)" % (worst, gid, sid, variant)
+
+
 def run_unit(u):
     res = Result("/".join(str(x) for x in u))
     ctx = harness.setup()
+    if u[0] == "gv":
+        return gv_unit(u, res)
+    if u[0] == "gruneisen":
+        return gru_unit(u, res)
     kind, gid, sid = u
     rng = np.random.default_rng(21)
     nac = None
@@ -255,8 +565,10 @@ def main(tier, seed):
     chk = Check(PID, tier, seed)
     harness.setup()
     us = units(tier)
-    chk.bounds = ["q symbolic in [-1,1]^3 with concrete force constants (ddm_vs_dD); force constants symbolic in [-1,1] at two concrete q (c_vs_py); Born entries in [-2,2] at one concrete q (Wang)"]
-    chk.outside = ["group velocity as the gradient of the frequency (perturbation theory on LAPACK eigenvectors)", "degeneracy handling and mesh-symmetry agreement", "Grueneisen parameters (not encoded in this revision)", "Gonze-Lee NAC (no analytic derivative in phonopy)"]
+    chk.bounds = ["q symbolic in [-1,1]^3 with concrete force constants (ddm_vs_dD); force constants symbolic in [-1,1] at two concrete q (c_vs_py); Born entries in [-2,2] at one concrete q (Wang)",
+                  "gv: dD/dq entries in [-1,1] (3 Hermitian 6x6 matrices), one non-degenerate q per crystal %s, spring-model force constants; gruneisen: D+, D- entries in [-1,1] at q-lists %s, volumes V0 (1.02, 0.985), s+- in [1/2, 2]" % (GV_Q, GRU_QS)]
+    chk.outside = ["degenerate bands (eigh of a symbolic block larger than 1x1) and the finite-difference (q_length) variant of dD", "Hellmann-Feynman itself (that <e|dD|e>/2w is the gradient of the frequency is perturbation theory, taken as the definition)",
+                   "Grueneisen mesh/band front ends and mesh-symmetry agreement", "Gonze-Lee NAC (no analytic derivative in phonopy)"]
     chk.assumptions = ["cos/sin uninterpreted with the derivative rules d cos = -sin du, d sin = cos du applied by the harness's tree differentiator and the parity instances cos(-u)=cos(u), sin(-u)=-sin(u); each remaining cos/sin application is an independent variable in [-1,1]", "doubles as exact reals"]
     chk.run_units(run_unit, us)
     return chk.finish()
